@@ -146,6 +146,25 @@ type event struct {
 
 var events []event
 
+// input: a place where data enters the program from outside (file, environment, terminal, command line)
+type input struct {
+	pkg, fn, api, lit string
+	seeded            bool
+}
+
+var inputs []input
+
+var inputAPIs = map[string]bool{
+	"os.ReadFile": true, "os.Getenv": true, "os.LookupEnv": true, "os.Environ": true, "golang.org/x/term.ReadPassword": true,
+	"os.Open": true, "(*bufio.Reader).ReadString": true, "(*bufio.Scanner).Scan": true, "fmt.Scan": true, "fmt.Scanln": true, "fmt.Scanf": true,
+	"io.ReadAll": false,
+}
+
+func isFlagDef(full string) bool {
+	return strings.HasPrefix(full, "(*github.com/spf13/pflag.FlagSet).") &&
+		(strings.Contains(full, ").String") || strings.Contains(full, ").Bool") || strings.Contains(full, ").Int") || strings.Contains(full, ").Var"))
+}
+
 var (
 	fset       = token.NewFileSet()
 	info       *types.Info
@@ -486,6 +505,9 @@ func (a *analysis) eval(e ast.Expr) labels {
 		return labels{}
 	case *ast.SelectorExpr:
 		if isPkgName(x.X) {
+			if id, _ := x.X.(*ast.Ident); id != nil && id.Name == "os" && (x.Sel.Name == "Stdin" || x.Sel.Name == "Args") && recording && !symbolic {
+				inputs = append(inputs, input{pkg: a.f.pkg, fn: a.f.key, api: "os." + x.Sel.Name})
+			}
 			return labels{}
 		}
 		r := a.eval(x.X)
@@ -779,6 +801,24 @@ func (a *analysis) evalCall(c *ast.CallExpr) []labels {
 		a.record(sink, kind, sargs, l)
 	}
 
+	if recording && !symbolic && (inputAPIs[full] || isFlagDef(full)) {
+		lit := ""
+		for _, arg := range c.Args {
+			if bl, ok := arg.(*ast.BasicLit); ok && bl.Kind == token.STRING {
+				lit = strings.Trim(bl.Value, "\"`")
+				break
+			}
+		}
+		// seeded: the value read is a taint seed — the call itself, or the result of the enclosing function
+		_, seededCall := seedCalls[full]
+		seededFn := false
+		for o, f := range fnByObj {
+			if f == a.f.top {
+				_, seededFn = seedCalls[o.FullName()]
+			}
+		}
+		inputs = append(inputs, input{pkg: a.f.pkg, fn: a.f.key, api: full, lit: lit, seeded: seededCall || seededFn})
+	}
 	// conversions and builtins
 	if tv, ok := info.Types[c.Fun]; ok && tv.IsType() {
 		return []labels{all}
@@ -1640,6 +1680,7 @@ func main() {
 	recording = true
 	sites = nil
 	events = nil
+	inputs = nil
 	for _, f := range order {
 		analyseBoth(f)
 	}
@@ -1822,6 +1863,28 @@ func main() {
 			hash32(ev.fn), grp, kind, sid, strings.Join(sec, ", "), strings.Join(msk, ", "), dev, leanStr(ev.fn), leanStr(ev.what), sep)
 	}
 	b.WriteString("]\n\n")
+
+	b.WriteString("/-- A place where data enters from outside: file, environment, terminal, command line (flag definitions).\n`id` hashes package, API, the literal argument (file / variable / flag name) and the ordinal; `seeded`: the value\nread is a taint seed (label pass). -/\n")
+	b.WriteString("structure Input where\n  id : Nat\n  seeded : Bool\n  pkg : String\n  fn : String\n  api : String\n  lit : String\n\n")
+	b.WriteString("def inputs : List Input := [\n")
+	{
+		seenIn := map[string]bool{}
+		var rows []string
+		iord := map[string]int{}
+		for _, in := range inputs {
+			api := strings.NewReplacer("(*github.com/spf13/pflag.FlagSet).", "flag.", "golang.org/x/term.", "term.").Replace(in.api)
+			base := in.pkg + "|" + api + "|" + in.lit
+			k := base + "|" + in.fn
+			if seenIn[k] && (api == "os.Args" || api == "os.Stdin") {
+				continue // mentioned several times in one function
+			}
+			seenIn[k] = true
+			iord[base]++
+			rows = append(rows, fmt.Sprintf("  { id := %d, seeded := %v, pkg := %s, fn := %s, api := %s, lit := %s }", hash32(fmt.Sprintf("%s|%d", base, iord[base])), in.seeded, leanStr(in.pkg), leanStr(in.fn), leanStr(api), leanStr(in.lit)))
+		}
+		b.WriteString(strings.Join(rows, ",\n"))
+	}
+	b.WriteString("\n]\n\n")
 
 	// summary of the fixpoint (documentation)
 	var keys []string
